@@ -104,6 +104,7 @@ func GenConfig(r *PRNG, profile string) *Config {
 		"replicas": 4, "slots": 3, "scalein": 4, "scaleout": 3, "template": 4, "partition": 2, "strategy": 1, "pause": 1,
 		"touch": 2, "histlimit": 1, "slotadd": 1, "resubmit": 1, "prel": 4,
 		"podrm": 2, "podlabel": 1, "podorphan": 1, "mkpod": 2, "delset": 0, "mkset": 1, "mkrev": 0,
+		"pvcterm": 1,
 	}
 	// swarm: switch off a random subset of step kinds
 	for _, k := range sortedKeys(c.Weights) {
@@ -204,6 +205,8 @@ func (s *Sim) Gen(r *PRNG) Step {
 			add(k, lag)
 		case "kube", "podrm", "podlabel", "podorphan", "podown":
 			add(k, pods)
+		case "pvcterm":
+			add(k, len(s.Store.tables[KPVC]) > 0)
 		case "prel":
 			add(k, procParked)
 		case "replicas", "slots", "xslots", "scalein", "scaleout", "template", "partition", "strategy", "pause", "touch", "histlimit", "slotadd", "resubmit", "delset", "policy":
@@ -312,7 +315,7 @@ func (s *Sim) Gen(r *PRNG) Step {
 		st.A = r.Intn(2)
 	case "delset":
 		st.A, st.B = r.Intn(nsets), r.Intn(3)
-	case "podrm", "podlabel", "podorphan":
+	case "podrm", "podlabel", "podorphan", "pvcterm":
 		st.A = r.Intn(16)
 	case "podown":
 		// B: owner class in the low two bits, bit 2 = reference written with another
@@ -333,6 +336,11 @@ func (s *Sim) Gen(r *PRNG) Step {
 		if s.Cfg.Profile == "flags" && r.Chance(0.4) {
 			// an owned pod whose labels stopped matching
 			st.C = ownThis | 3<<2 | 1<<6
+		}
+		if (s.Cfg.Profile == "ordered" || s.Cfg.Profile == "slots" || s.Cfg.Profile == "scalein") && r.Chance(0.2) {
+			// two-digit ordinals next to one-digit ones (names do not sort like numbers)
+			st.B = 9 + r.Intn(4)
+			st.C = ownThis | 3<<2
 		}
 		if (s.Cfg.Profile == "rolling" || s.Cfg.Profile == "history") && r.Chance(0.12) {
 			// a pod of the set whose ordinal does not fit an int32: claimed and counted,
